@@ -86,6 +86,20 @@ size_t HashBBdh::getSize() {
   return mem;
 }
 
+void HashBBdh::save(std::ostream &fp) {
+  // The offsets are kept as a bitmap: the sequence is built again
+  LogSequence *full = new LogSequence(numbits, tsize);
+  for (uint i = 1; i <= n; i++)
+    full->setField(b_ht->select1(i), offsets->select1(i));
+
+  saveValue(fp, tsize);
+  saveValue(fp, n);
+  full->save(fp);
+  b_ht->save(fp);
+
+  delete full;
+}
+
 HashBBdh *HashBBdh::load(std::istream &fp) {
   HashBBdh *h_new = new HashBBdh();
 
@@ -113,7 +127,9 @@ HashBBdh *HashBBdh::load(std::istream &fp) {
   h_new->offsets = new BitSequenceRRR(*offsets);
 
   delete offsets;
+  h_new->numbits = h_new->hash->getNumbits();
   delete h_new->hash;
+  h_new->hash = NULL;
 
   return h_new;
 }
